@@ -212,7 +212,7 @@ fn check_family(shape: &Shape, value: &Value, l: &mut Local) -> CaseResult {
 
 pub fn replay(case: &Json, l: &mut Local) -> CaseResult {
     if case.get("probe").is_some() {
-        return check_human_readable_flag(l);
+        return check_human_readable_flag_c03(l);
     }
     if let Some(r) = super::corpus_checks::replay_corpus(case, l) {
         return r;
@@ -287,7 +287,7 @@ pub fn run(ctx: &Ctx) {
          (accept/value/consumed/error kind), tail independence, from_bytes == take_from_bytes. non-trivial = anything \
          but an unmodified canonical encoding with empty remainder; distinct = hash(shape, input)",
     );
-    ctx.serial("human-readable-flag", check_human_readable_flag);
+    ctx.serial("human-readable-flag", check_human_readable_flag_c03);
     ctx.assume("reference decoder harness/src/refcodec.rs is written from the spec only and self-tested on the spec's tables");
     ctx.assume("sequences/maps of zero-width elements with claimed length > 65536 are skipped (counted under 'skipped')");
 
